@@ -130,6 +130,7 @@ func runC13(c *Ctx) {
 	if nClose < 4 {
 		R.Fatal("only %d closes of connection channels found (anchor: connection.stop closes five)", nClose)
 	}
+	c.closeAfterAnswer()
 	// ---- no goroutine blocks on a channel that only it drains
 	{
 		R.Rules["E5.self-send"] = "no goroutine role performs a plain (blocking) send on a connection channel whose only receiver is that same role: once the buffer is full - other goroutines may fill it - the role waits for itself and every caller it serves hangs"
@@ -709,4 +710,124 @@ func sortedKeysOf[T any](m map[string]T) []string {
 	}
 	sort.Strings(out)
 	return out
+}
+
+// closeAfterAnswer: a function that creates a channel, hands it to other goroutines and closes it itself (the per-call
+// reply channel of sessionManager.write) may close it only after the answer has been taken from it: every way from
+// the creation to a return runs over a plain receive from that channel. A return without the receive (a caller-side
+// timer in a select, an early error return) closes a channel that the writer or the manager still answers on - their
+// send panics with "send on closed channel" and the process ends.
+func (c *Ctx) closeAfterAnswer() {
+	R := c.R
+	rule := "E5.close-after-answer"
+	R.Rules[rule] = "a function of the service package that creates a channel, lets it escape to other goroutines and closes it itself (directly or deferred) receives from it - a plain receive, not one arm of a select - on every path from the creation to a return: the side that answers always finds the channel open"
+	n := 0
+	for _, fn := range c.RepoFuncs("service") {
+		for _, b := range fn.Blocks {
+			for mi, ins := range b.Instrs {
+				mk, isMk := ins.(*ssa.MakeChan)
+				if !isMk {
+					continue
+				}
+				// the variable the channel lives in (captured variables are cells)
+				var cell *ssa.Alloc
+				for _, ref := range *mk.Referrers() {
+					if st, isSt := ref.(*ssa.Store); isSt && st.Val == mk {
+						if al, isAl := st.Addr.(*ssa.Alloc); isAl {
+							single := true
+							for _, r2 := range *al.Referrers() {
+								if s2, isS2 := r2.(*ssa.Store); isS2 && s2.Addr == al && s2 != st {
+									single = false
+								}
+							}
+							if single {
+								cell = al
+							}
+						}
+					}
+				}
+				isCh := func(v ssa.Value) bool {
+					if v == mk {
+						return true
+					}
+					if u, ok := v.(*ssa.UnOp); ok && u.Op == token.MUL && cell != nil && u.X == cell {
+						return true
+					}
+					return false
+				}
+				closed, escapes := false, false
+				for _, b2 := range fn.Blocks {
+					for _, i2 := range b2.Instrs {
+						switch x := i2.(type) {
+						case *ssa.Call:
+							if bi, ok := x.Call.Value.(*ssa.Builtin); ok && bi.Name() == "close" && isCh(x.Call.Args[0]) {
+								closed = true
+							}
+						case *ssa.Defer:
+							if bi, ok := x.Call.Value.(*ssa.Builtin); ok && bi.Name() == "close" && isCh(x.Call.Args[0]) {
+								closed = true
+							}
+						case *ssa.MakeClosure:
+							for _, bd := range x.Bindings {
+								if bd == ssa.Value(cell) && cell != nil || bd == ssa.Value(mk) {
+									escapes = true
+								}
+							}
+						case *ssa.Store:
+							if isCh(x.Val) && x.Addr != ssa.Value(cell) {
+								escapes = true
+							}
+						case *ssa.Send:
+							if isCh(x.X) {
+								escapes = true
+							}
+						}
+					}
+				}
+				if !closed || !escapes {
+					continue
+				}
+				n++
+				recvAfter := func(blk *ssa.BasicBlock, from int) bool {
+					for _, i2 := range blk.Instrs[from:] {
+						if u, ok := i2.(*ssa.UnOp); ok && u.Op == token.ARROW && isCh(u.X) {
+							return true
+						}
+					}
+					return false
+				}
+				bad := ""
+				seen := map[*ssa.BasicBlock]bool{}
+				var walk func(blk *ssa.BasicBlock, from int)
+				walk = func(blk *ssa.BasicBlock, from int) {
+					if bad != "" || recvAfter(blk, from) {
+						return
+					}
+					if ret, isR := blk.Instrs[len(blk.Instrs)-1].(*ssa.Return); isR {
+						bad = c.P.RelPos(ret.Pos())
+						if bad == "" {
+							bad = "a return of " + shortFn(fn)
+						}
+						return
+					}
+					for _, sblk := range blk.Succs {
+						if !seen[sblk] {
+							seen[sblk] = true
+							walk(sblk, 0)
+						}
+					}
+				}
+				walk(b, mi+1)
+				st, d := report.Discharged, ""
+				if bad != "" {
+					st, d = report.Violated, fmt.Sprintf("%s closes the channel it created at %s, but the return at %s is reached without a plain receive from it: whoever still answers on that channel (the writer completing or timing out the command, the writer's teardown, the manager's not-exist answer) sends on a closed channel and the process panics", shortFn(fn), c.P.RelPos(mk.Pos()), bad)
+				}
+				R.Add(rule, shortFn(fn)+" / "+c.constructOf(fn, mk), c.P.RelPos(mk.Pos()), st, d)
+			}
+		}
+	}
+	if n == 0 {
+		R.Fatal("%s: no function creates, shares and closes a channel (confirmed by hand: sessionManager.write's reply channel)", rule)
+	}
+	R.Require(rule, 1, "")
 }
